@@ -493,7 +493,6 @@ def findBaseURL (sdpControl : Option Str) (cb : Option (List Str)) (u : Url) : O
 
 inductive MediaURL
   | err                -- `(nil, err)`
-  | nilURL             -- `(nil, nil)`: the error of the final ParseURL is dropped
   | url (u : Url)
 deriving DecidableEq, Repr
 
@@ -512,7 +511,7 @@ def mediaURL (ctl : Str) (base : Option Url) : MediaURL :=
       let s := if ctl.head? != some 63 && ctl.head? != some 47 && !endsWithSlash s then s ++ [47] else s
       match parse (s ++ ctl) with
       | some r => .url r
-      | none => .nilURL
+      | none => .err
 
 /-- the URL text of the request line `MarshalTo` writes (`*` for a nil URL) -/
 def requestTarget (u : Option Url) : Str :=
